@@ -75,6 +75,17 @@ func init() {
 func maxprog(h *harnessSpec) *harnessSpec { h.maximalProgress = true; return h }
 
 var twoCallers *harnessSpec
+
+// the HTTP front end (cmd/aws-lambda-rie InvokeHandler) against a stub sandbox; sequential, so
+// counterexamples are also replayed natively
+func frontEnd() []*harnessSpec {
+	pkg := modulePath + "/cmd/aws-lambda-rie"
+	return []*harnessSpec{
+		hs(pkg, "VerifFrontEnd", 0, "front end InvokeHandler with a stub interop server: symbolic event and buffered response, client context {absent, arbitrary bytes (round trip through the standard encoding), documents whose encodings use '+' and '/'}, every outcome of the interop server x response buffered or not x status: event byte for byte, decoded client context, fresh id, ARN, trace; exactly one outcome: the response, OR the timeout text, OR the buffered platform error with a failure status", "success", "timeout", "failure", "done"),
+		hs(pkg, "VerifFrontEndTwo", 0, "three consecutive posts (the second times out): fresh ids, own events, own response after a timeout", "done"),
+		hs(pkg, "VerifFrontEndBadContext", 0, "an undecodable client context is refused with 500 before anything is invoked", "done"),
+	}
+}
 var orchAssume, orchOutside []string
 
 func init() {
@@ -113,7 +124,11 @@ func withD(hs []*harnessSpec, d int, maxPaths int) []*harnessSpec {
 	var out []*harnessSpec
 	for _, h := range hs {
 		c := *h
-		c.preemptionBound = d
+		// one more delay than the quick tier (at most d)
+		c.preemptionBound = h.preemptionBound + 1
+		if c.preemptionBound > d {
+			c.preemptionBound = d
+		}
 		c.maxPaths = maxPaths
 		out = append(out, &c)
 	}
@@ -167,14 +182,16 @@ func init() {
 		srvSeq("VerifC01Sequence2", 2, "Server.Invoke x2 against the stub sandbox, symbolic behaviour per invocation", "respond", "error", "crash", "respond-crash", "wrong-id"),
 		orch(pkgRC, "VerifFullTimeoutThenOK", 2, "FULL stack: an invocation following a timed-out one (deadline, body, outcome)", "timeout", "respond", "scenario-done"),
 	}
+	c01 = append(c01, frontEnd()...)
 	c01t := append(withD(c01, 3, 3000000), orch(pkgRC, "VerifFullAny2", 2, "FULL stack: any of 7 runtime behaviours for each of 2 invocations", "scenario-done"), twoCallers)
-	checkRegistry = append(checkRegistry, &checkSpec{id: "C01", level: "other", quick: c01, thorough: c01t, assume: orchAssume, outside: append(orchOutside, "front-end HTTP handler mapping (cmd/aws-lambda-rie) and base64 client context")})
+	checkRegistry = append(checkRegistry, &checkSpec{id: "C01", level: "other", quick: c01, thorough: c01t, assume: orchAssume, outside: append(orchOutside, "InitHandler / main.go of cmd/aws-lambda-rie (environment forwarding, HTTP server)")})
 
 	c02 := []*harnessSpec{
 		orch(pkgRC, "VerifC02ServerScript4", 0, "symbolic 4-op script over Server.Reserve / setReplyStream / SendResponse / SendErrorResponse (in-flight, previous or bogus id) / Release against a ghost model", "refused-id", "refused-dup", "accepted"),
 		orch(pkgRC, "VerifFullIllegal", 2, "FULL stack: case variant of the id (400), init/error after next (403), error for a stale id (400), then the legal response", "case-variant", "illegal", "scenario-done"),
 		orch(pkgRC, "VerifFullStale", 2, "FULL stack: stale-id (400), duplicate (refused) and normal submissions through validator + handlers + Server", "stale", "double", "scenario-done"),
 		srvSeq("VerifC01Sequence2", 2, "Server.Invoke x2, stale id then right id", "wrong-id"),
+		srvSeq("VerifC02LateResetFailure", 2, "stub sandbox: the goroutine waiting for the outcome of timed-out invocation A learns about the reset only when invocation B has been dispatched: A's platform error is never delivered for B's id, B's response is accepted", "late-reset-failure", "done"),
 		orch(pkgRC, "VerifC06ExtensionFault", 1, "accepted only once: after the platform answered the caller with the first fault (extension crash), the function's own late response for the same id is refused (no panic, caller keeps the platform error)", "late-response-after-fault", "done"),
 	}
 	c02t := append(withD(c02, 3, 3000000), orch(pkgRC, "VerifC02ServerScript5", 0, "as ServerScript4 with 5 operations", "accepted"))
@@ -188,6 +205,7 @@ func init() {
 		expiry(orch(pkgRC, "VerifC05ExpiryRaceStub", 3, "stub sandbox, the function-timeout timer may fire at ANY point of two healthy invocations (response-versus-expiry): each ends with its response or the timeout outcome and never disturbs the next one", "expiry-won", "response-won")),
 		orch(pkgRC, "VerifFullRace2", 2, "FULL stack, timer may fire at any point of two healthy invocations after init", "expiry-won", "respond", "scenario-done"),
 		orch(pkgRC, "VerifC05SlowStateGetter", 2, "stub sandbox: the completion report of invocation A is delayed (slow internal-state getter) past A's timeout reset and B's reservation: the late DONE is discarded, B ends with its own response", "late-done", "done"),
+		frontEnd()[0],
 		expiry(orch(pkgRC, "VerifFullRaceInit2", 1, "FULL stack, timer may fire at any point INCLUDING the lazy initialisation: a timed-out invocation is never dispatched behind its reset (the next runtime gets the next event)", "expiry-before-dispatch", "respond", "scenario-done")),
 	}
 	checkRegistry = append(checkRegistry, &checkSpec{id: "C05", level: "other", quick: c05, thorough: withD(c05, 3, 3000000), assume: orchAssume, outside: append(orchOutside, "wall-clock bound of the answer (logical time only)", "stalls during extension registration / runtime init (see C03 harness for the barrier)")})
@@ -219,7 +237,7 @@ func init() {
 	c09t := append(withD(c09, 2, 3000000), orch(pkgRapid, "VerifC09Shutdown2", 2, "explicit shutdown, 2 extensions", "returned"))
 	checkRegistry = append(checkRegistry, &checkSpec{id: "C09", level: "other", quick: c09, thorough: c09t,
 		assume: []string{"ORCH composition with the real shutdownContext.shutdown / shutdownRuntime / shutdownAgents / clearExitedChannel / handleProcessExit / watchEvents / ShutdownRenderer from go/ssa", "fake supervisor: Terminate makes a cooperative process exit, Kill makes it exit unless the request deadline has already passed (contract of the local supervisor); every exit posts one event", "logical clock; timers (deadlines, 2 s grace) fire only when no thread can run", "delay-bounded schedules"},
-		outside: []string{"real signal delivery and reaping (C19)", "the 30% share is checked with concrete durations (2000 ms allowance), not symbolically", "already-exited and never-started runtime variants", "upper bound deadline + 9 s + 2 s (logical time only)"}})
+		outside: []string{"real signal delivery and reaping (C19)", "the 30% share is checked with concrete durations (2000 ms allowance), not symbolically", "extensions that are subscribed but not polling when the operation begins", "upper bound deadline + 9 s + 2 s (logical time only)"}})
 
 	c15 := []*harnessSpec{
 		orch(pkgRC, "VerifFullInitCrash", 2, "runtime exits during the first init; event grammar + truthfulness monitor over the whole trace", "scenario-done"),
@@ -264,6 +282,7 @@ func init() {
 	c13t := []*harnessSpec{
 		orch(pkgRC, "VerifC13External4", 0, "scripts of 4 calls (external)", "script-done"),
 		orch(pkgRC, "VerifC13Internal4", 0, "scripts of 4 calls (internal)", "script-done"),
+		orch(pkgRC, "VerifC13TwoExternal2", 0, "two external extensions, each executing every script of 2 calls, interleaved", "script-done"),
 		orch(pkgRC, "VerifC13ExitWhileParked", 2, "exit/error while parked", "parked-next-answered"),
 	}
 	checkRegistry = append(checkRegistry, &checkSpec{id: "C13", level: "other", quick: c13, thorough: c13t,
